@@ -425,10 +425,49 @@ func hostSeq(pooled bool) *ugo.Function {
 	}}
 }
 
+// hostSeqCycle is the Go function behind cbseq3: ONE Invoker used over and over, each invocation
+// between its own Acquire and Release; between two invocations another Invoker (for a function
+// of the host's own) takes a child VM from the pool and gives it back.
+func hostSeqCycle() *ugo.Function {
+	return &ugo.Function{Name: "cbseq3", ValueEx: func(c ugo.Call) (ugo.Object, error) {
+		if c.Len() != 2 {
+			return nil, ugo.ErrWrongNumArguments.NewError("want=2")
+		}
+		lists, ok := c.Get(1).(ugo.Array)
+		if !ok {
+			return nil, ugo.ErrWrongNumArguments.NewError("want array")
+		}
+		inv := ugo.NewInvoker(c.VM(), c.Get(0))
+		other := ugo.NewInvoker(c.VM(), &ugo.Function{Name: "hostfn", Value: func(a ...ugo.Object) (ugo.Object, error) { return ugo.Int(-1), nil }})
+		out := ugo.Array{}
+		for _, l := range lists {
+			args, _ := l.(ugo.Array)
+			inv.Acquire()
+			ret, err := hostInvoke(inv, args)
+			inv.Release()
+			other.Acquire()
+			other.Invoke()
+			other.Release()
+			if err != nil {
+				if o, ok := err.(ugo.Object); ok {
+					out = append(out, o)
+				} else {
+					out = append(out, &ugo.Error{Name: "goerr", Message: err.Error()})
+				}
+				continue
+			}
+			out = append(out, ret)
+		}
+		return out, nil
+	}}
+}
+
 func semValueObj(v N) ugo.Object {
 	switch v["t"] {
 	case "bi":
 		switch v["n"] {
+		case "cbseq3":
+			return hostSeqCycle()
 		case "cbseq":
 			return hostSeq(true)
 		case "cbseq2":
